@@ -182,3 +182,25 @@ Definition ex_byref_no_pointer : tprog :=
     TOp 31 [(rcx, 8%nat); (s32, 16%nat)] [(rax, 8%nat); (rcx, 8%nat); (rdx, 8%nat); (s32, 16%nat)]; TRet [(rax, 8%nat)] ].
 Example ex_byref_no_pointer_rejected : validate ex_src_byref ex_byref_no_pointer [Some 0; Some 1; None; Some 2; Some 4]%nat = false.
 Proof. vm_compute. reflexivity. Qed.
+
+(* 13. a legacy-SSE partial write (movlps x, [m]: bytes 0-7 written, 8-15 kept; RwRuleModel.classify makes the old 16 bytes a
+       use). v1 lives in slot 32 when the instruction comes. Accepted: full reload in front of it. Refused: the instruction
+       treated as a pure definition (fresh register, no reload) and a reload of only the 8 low bytes. *)
+Definition xmm2 := LReg 1 2.
+Definition ex_src_movlps : sprog :=
+  [ SOp 10 [] [(1, 16%nat)]; SOp 40 [(1, 16%nat)] [(1, 16%nat)]; SOp 41 [(1, 16%nat)] [(2, 8%nat)]; SMove 100 2 8; SRet [(100, 8%nat)] ].
+Definition ex_movlps_good : tprog :=
+  [ TOp 10 [] [(xmm1, 16%nat)]; TMove s32 xmm1 16 false 16; TMove xmm2 s32 16 false 16;
+    TOp 40 [(xmm2, 16%nat)] [(xmm2, 16%nat)]; TOp 41 [(xmm2, 16%nat)] [(rax, 8%nat)]; TRet [(rax, 8%nat)] ].
+Example ex_movlps_accepted : validate_full ex_src_movlps ex_movlps_good [Some 0; None; None; Some 1; Some 2; Some 4]%nat = true.
+Proof. vm_compute. reflexivity. Qed.
+Definition ex_movlps_pure_def : tprog :=
+  [ TOp 10 [] [(xmm1, 16%nat)]; TMove s32 xmm1 16 false 16;
+    TOp 40 [(xmm2, 16%nat)] [(xmm2, 16%nat)]; TOp 41 [(xmm2, 16%nat)] [(rax, 8%nat)]; TRet [(rax, 8%nat)] ].
+Example ex_movlps_pure_def_rejected : validate ex_src_movlps ex_movlps_pure_def [Some 0; None; Some 1; Some 2; Some 4]%nat = false.
+Proof. vm_compute. reflexivity. Qed.
+Definition ex_movlps_half_reload : tprog :=
+  [ TOp 10 [] [(xmm1, 16%nat)]; TMove s32 xmm1 16 false 16; TMove xmm2 s32 8 false 16;
+    TOp 40 [(xmm2, 16%nat)] [(xmm2, 16%nat)]; TOp 41 [(xmm2, 16%nat)] [(rax, 8%nat)]; TRet [(rax, 8%nat)] ].
+Example ex_movlps_half_reload_rejected : validate ex_src_movlps ex_movlps_half_reload [Some 0; None; None; Some 1; Some 2; Some 4]%nat = false.
+Proof. vm_compute. reflexivity. Qed.
